@@ -53,7 +53,7 @@ Ltac gsplit I :=
 
 Definition tame_op (o : op) : Prop :=
   match o with
-  | UMarkNodeDeleting _ | Construct _ _ _ | DeliverNodeTombstone | RelistNodes => False
+  | UMarkNodeDeleting _ | Construct _ _ _ _ | DeliverNodeTombstone | RelistNodes => False
   | UCreateNode _ _ cs => cs = []
   | UCreateCC obj => good_obj obj
   | _ => True
@@ -200,16 +200,30 @@ Proof.
   rewrite E. tauto.
 Qed.
 
-Lemma apply_effects_ginv fx : forall w nm cs, GInv w -> Forall wf_cidr cs ->
+Lemma apply_create_cc_ginv w o out : GInv w -> good_obj o -> GInv (apply_create_cc w o out).
+Proof.
+  intros I Hg. pose proof (apply_create_cc_winv w o out (g_w w I) Hg) as W'.
+  destruct (apply_create_cc_frame w o out) as (E1 & E2 & _ & E3 & _ & _ & E4 & _ & E5 & _).
+  apply (ginv_same w); assumption.
+Qed.
+
+Lemma apply_create_cc_holders w o out n c : holder (apply_create_cc w o out) n c <-> holder w n c.
+Proof.
+  destruct (apply_create_cc_frame w o out) as (E1 & _ & _ & _ & _ & _ & E4 & _).
+  unfold holder. rewrite E1, E4. tauto.
+Qed.
+
+Lemma apply_effects_ginv fx : forall w nm cs, GInv w -> Forall wf_cidr cs -> fx_good fx ->
   (forall nm' cs' o, In (FxPatch nm' cs' o) fx -> nm' = nm /\ cs' = cs) ->
   (forall n2 d, holder w n2 d -> n2 <> nm -> forall x, In x cs -> overlapb x d = false) ->
   ((exists o, In (FxPatch nm cs o) fx /\ (o = POk \/ o = PTimeoutApplied)) -> forall m, w_ctl w = Some m -> forall x, In x cs -> Held m nm x) ->
   GInv (apply_effects w fx).
 Proof.
-  induction fx as [|e fx IH]; intros w nm cs I Hw Hsame Hav Hheld; [exact I|].
+  induction fx as [|e fx IH]; intros w nm cs I Hw Hg Hsame Hav Hheld; [exact I|].
+  pose proof (fx_good_tail _ _ Hg) as Hg'.
   destruct e; cbn [apply_effects].
   - destruct (Hsame _ _ _ (or_introl eq_refl)) as [-> ->].
-    apply (IH _ nm cs); [|exact Hw| | |].
+    apply (IH _ nm cs); [|exact Hw|exact Hg'| | |].
     + apply apply_patch_ginv; [exact I|exact Hw|exact Hav|]. intros Ho. apply Hheld. exists o. split; [left; reflexivity|exact Ho].
     + intros nm' cs' o' Hin. apply (Hsame nm' cs' o'). right. exact Hin.
     + intros n2 d Hh Hne. apply (Hav n2 d); [|exact Hne]. eapply apply_patch_other_holders; eassumption.
@@ -218,12 +232,14 @@ Proof.
     intros (o' & Hin & Ho'). apply Hheld. exists o'. split; [right; exact Hin|exact Ho'].
   - apply (IH _ nm cs); try assumption. intros; eapply Hsame; right; eassumption.
     intros (o' & Hin & Ho'). apply Hheld. exists o'. split; [right; exact Hin|exact Ho'].
-  - apply (IH _ nm cs); [apply apply_update_cc_ginv; exact I|exact Hw| | |].
+  - apply (IH _ nm cs); [apply apply_update_cc_ginv; exact I|exact Hw|exact Hg'| | |].
     + intros; eapply Hsame; right; eassumption.
     + intros n2 d Hh. apply (Hav n2 d). apply apply_update_cc_holders in Hh. exact Hh.
     + intros (o'' & Hin & Ho') m Em. rewrite apply_update_cc_ctl in Em. apply Hheld; [|exact Em]. exists o''. split; [right; exact Hin|exact Ho'].
-  - apply (IH _ nm cs); try assumption. intros; eapply Hsame; right; eassumption.
-    intros (o'' & Hin & Ho'). apply Hheld. exists o''. split; [right; exact Hin|exact Ho'].
+  - apply (IH _ nm cs); [apply apply_create_cc_ginv; [exact I|exact (fx_good_head _ _ _ Hg)]|exact Hw|exact Hg'| | |].
+    + intros; eapply Hsame; right; eassumption.
+    + intros n2 d Hh. apply (Hav n2 d). apply apply_create_cc_holders in Hh. exact Hh.
+    + intros (o'' & Hin & Ho') m Em. rewrite apply_create_cc_ctl in Em. apply Hheld; [|exact Em]. exists o''. split; [right; exact Hin|exact Ho'].
 Qed.
 
 Lemma crashed_ginv_of w X : GInv w -> WInv X -> w_nodes X = w_nodes w -> GInv (crashed X).
@@ -276,12 +292,13 @@ Section Hist2.
     destruct (patch_dec fx) as [(nm & cs & o & Hin)|Hno].
     - apply (apply_effects_ginv fx _ nm cs IA).
       + exact (sync_node_patches_wf po lab _ _ _ _ _ _ _ _ _ _ _ M Es nm cs o Hin).
+      + eapply sync_node_fx_good; exact Es.
       + intros nm' cs' o' Hin'. exact (sync_node_patches_same _ _ _ _ _ _ _ _ _ _ _ _ _ Es _ _ _ _ _ _ Hin' Hin).
       + intros n2 d Hh Hne x Hx. apply Hholders in Hh. eapply Havoid; [exact Hin| |exact Hx]. apply (g_held w I m Em n2 d Hh).
       + intros (o' & Hin' & Ho') m0 E0 x Hx. rewrite Hctl in E0. inversion E0; subst m0.
         eapply Hkept; [exact Hin'| |exact Hx].
         exact (sync_node_applied_is_kept _ _ _ _ _ _ _ _ _ _ _ _ _ M Es _ _ _ Hin' Ho').
-    - apply (apply_effects_ginv fx _ key [] IA); [constructor| | |].
+    - apply (apply_effects_ginv fx _ key [] IA); [constructor|eapply sync_node_fx_good; exact Es| | |].
       + intros nm' cs' o' Hin'. destruct (Hno _ _ _ Hin').
       + intros n2 d _ _ x [].
       + intros _ m0 _ x [].
@@ -303,7 +320,7 @@ Section Hist2.
       all: destruct I as [a0 b c d e0 f g h i j]; constructor; cbn [set_ctl w_nodes w_nfeed w_ncache w_nfetch w_ctl]; try assumption.
       all: intros m0 E0 nm c0 Hh; inversion E0; subst; apply Hmono; apply (j m Em); exact Hh. }
     assert (IB : forall w1, GInv w1 -> GInv (apply_effects w1 fx)).
-    { intros w1 I1. apply (apply_effects_ginv fx w1 key [] I1); [constructor| | |].
+    { intros w1 I1. apply (apply_effects_ginv fx w1 key [] I1); [constructor|eapply sync_cc_fx_good; eassumption| | |].
       - intros nm' cs' o' Hin'. destruct (Hnp _ _ _ Hin').
       - intros n2 d _ _ x [].
       - intros _ m0 _ x []. }
@@ -587,7 +604,8 @@ Section Hist2.
     - apply IH.
     - apply IH.
     - destruct (IH (apply_update_cc w o' outcome)) as [A B]. rewrite apply_update_cc_nodes, apply_update_cc_feed in *. split; assumption.
-    - apply IH.
+    - destruct (IH (apply_create_cc w o' outcome)) as [A B].
+      destruct (apply_create_cc_frame w o' outcome) as (E1 & _ & _ & _ & _ & _ & E4 & _). rewrite E1, E4 in *. split; assumption.
   Qed.
 
   Lemma crashed_names w X new : w_nodes X = w_nodes w -> names_ok w (crashed X) new.
@@ -690,26 +708,27 @@ Section Hist2.
         * apply (proj1 (Hf nm (in_or_app _ _ _ (or_intror Hin)))); exact Hx'.
   Qed.
 
-  Lemma construct_ginv w s1 s2 outs :
-    GInv w -> bare w -> w_nfeed w = [] -> (forall s, s1 = Some s -> wf_cidr s) -> (forall s, s2 = Some s -> wf_cidr s) ->
-    GInv (fst (step po lab w (Construct s1 s2 outs))).
+  Lemma construct_ginv w s1 s2 outs dp :
+    GInv w -> bare w -> w_nfeed w = [] -> (forall s, s1 = Some s -> wf_cidr s) -> (forall s, s2 = Some s -> wf_cidr s) -> wf_dp dp ->
+    GInv (fst (step po lab w (Construct s1 s2 outs dp))).
   Proof.
-    intros I [Hc Hn] Hfe H1 H2. pose proof (step_winv po lab w (Construct s1 s2 outs) (g_w w I) (conj H1 H2)) as W'.
+    intros I [Hc Hn] Hfe H1 H2 Hdp. pose proof (step_winv po lab w (Construct s1 s2 outs dp) (g_w w I) (conj H1 (conj H2 Hdp))) as W'.
+    assert (Hgood : Forall good_obj (with_default dp (w_ccs w))) by (apply with_default_good; [exact Hdp|exact (wi_ccs w (g_w w I))]).
     cbn [step] in *. rewrite Hc in *.
-    destruct (construct po lab (w_ccs w) outs s1 s2 (map node_view (w_nodes w))) as [[m fx] pan] eqn:Ec. cbn [fst] in *.
+    destruct (construct po lab (with_default dp (w_ccs w)) outs s1 s2 (map node_view (w_nodes w))) as [[m fx] pan] eqn:Ec. cbn [fst] in *.
     assert (Hnp : forall nm cs o, ~ In (FxPatch nm cs o) fx).
-    { intros nm cs o Hin. unfold construct in Ec. destruct (bootstrap_ccs [] (w_ccs w) outs) as [m1 fx1] eqn:Eb.
+    { intros nm cs o Hin. unfold construct in Ec. destruct (bootstrap_ccs [] (with_default dp (w_ccs w)) outs) as [m1 fx1] eqn:Eb.
       match type of Ec with context [occupy_nodes po lab ?m3 ?ns] => destruct (occupy_nodes po lab m3 ns) as [m4 p4] end.
       inversion Ec; subst. pose proof (bootstrap_no_patch _ _ _ _ _ Eb _ Hin) as Hp. discriminate Hp. }
     assert (IB : forall w1, GInv w1 -> GInv (apply_effects w1 fx)).
-    { intros w1 I1. apply (apply_effects_ginv fx w1 [] [] I1); [constructor| | |].
+    { intros w1 I1. apply (apply_effects_ginv fx w1 [] [] I1); [constructor|eapply construct_fx_good; eassumption| | |].
       - intros nm' cs' o' Hin'. destruct (Hnp _ _ _ Hin').
       - intros n2 d _ _ x [].
       - intros _ m0 _ x []. }
     apply IB.
     assert (M : forall m0, (if pan then None else Some m) = Some m0 -> MapInv m0).
     { intros m0 E. destruct pan; [discriminate|]. inversion E; subst.
-      eapply construct_inv; [exact (wi_ccs w (g_w w I))| |exact H1|exact H2|exact Ec].
+      eapply construct_inv; [exact Hgood| |exact H1|exact H2|exact Ec].
       rewrite Forall_forall. intros n Hin. apply in_map_iff in Hin. destruct Hin as (a & <- & Ha). apply wf_node_view. eapply in_anodes_wf; [exact (g_w w I)|exact Ha]. }
     assert (Hnoh : forall nm c, ~ holder (mkWorld (w_nodes w) (w_ccs w) (w_rv w) [] [] [] [] empty_q empty_q (if pan then None else Some m) false [] [] (s1, s2) (w_delseen w)) nm c).
     { intros nm c [(a & Ha & _ & (cn & Hcn))|(x & cn & [] & _)]. cbn in Ha. rewrite (Hn a Ha) in Hcn. destruct Hcn. }
@@ -737,13 +756,13 @@ Section Hist2.
   Qed.
 
   (* C01 over whole histories of one incarnation, node deletion included *)
-  Theorem no_overlap_with_node_deletion pre s1 s2 outs ops :
-    Forall user_op pre -> (forall s, s1 = Some s -> wf_cidr s) -> (forall s, s2 = Some s -> wf_cidr s) -> Forall tame_op ops ->
+  Theorem no_overlap_with_node_deletion pre s1 s2 outs dp ops :
+    Forall user_op pre -> (forall s, s1 = Some s -> wf_cidr s) -> (forall s, s2 = Some s -> wf_cidr s) -> wf_dp dp -> Forall tame_op ops ->
     NoDup (flat_map created (pre ++ ops)) ->
-    let w := run po lab init_world (pre ++ Construct s1 s2 outs :: ops) in
+    let w := run po lab init_world (pre ++ Construct s1 s2 outs dp :: ops) in
     forall n1 c1 n2 c2, holder w n1 c1 -> holder w n2 c2 -> n1 <> n2 -> overlapb c1 c2 = false.
   Proof.
-    intros Hpre H1 H2 Hops Hnd w. apply g_disj. subst w. unfold run. rewrite fold_left_app. cbn [fold_left].
+    intros Hpre H1 H2 Hdp Hops Hnd w. apply g_disj. subst w. unfold run. rewrite fold_left_app. cbn [fold_left].
     set (w0 := fold_left (fun w o => fst (step po lab w o)) pre init_world).
     assert (Hpre_t : Forall tame_op pre) by (eapply Forall_impl; [|exact Hpre]; intros o; destruct o; cbn; tauto).
     rewrite flat_map_app in Hnd.
@@ -754,9 +773,9 @@ Section Hist2.
     apply run_ginv; [apply construct_ginv; assumption|exact Hops|apply NoDup_app_r in Hnd; exact Hnd|].
     (* names created after the start are fresh in the world right after construction *)
     intros nm Hin. split.
-    - assert (Hn : w_nodes (fst (step po lab w0 (Construct s1 s2 outs))) = w_nodes w0 \/ True) by (right; exact Logic.I).
+    - assert (Hn : w_nodes (fst (step po lab w0 (Construct s1 s2 outs dp))) = w_nodes w0 \/ True) by (right; exact Logic.I).
       intros Hx. cbn [step] in Hx. destruct B0 as [Hc0 _]. rewrite Hc0 in Hx.
-      destruct (construct po lab (w_ccs w0) outs s1 s2 (map node_view (w_nodes w0))) as [[m fx] pan]. cbn [fst] in Hx.
+      destruct (construct po lab (with_default dp (w_ccs w0)) outs s1 s2 (map node_view (w_nodes w0))) as [[m fx] pan]. cbn [fst] in Hx.
       destruct (apply_effects_names fx (mkWorld (w_nodes w0) (w_ccs w0) (w_rv w0) [] [] [] [] empty_q empty_q (if pan then None else Some m) false [] [] (s1, s2) (w_delseen w0))) as [A _].
       rewrite A in Hx. cbn in Hx.
       (* nm is an API name of w0, i.e. created in pre -- and created again in ops: excluded *)
@@ -775,7 +794,7 @@ Section Hist2.
       clear - Hnd Hinpre Hin. induction (flat_map created pre) as [|c l IHl]; [destruct Hinpre|]. cbn in Hnd. inversion Hnd; subst.
       destruct Hinpre as [->|Hp]; [apply H1; apply in_or_app; right; exact Hin|exact (IHl H2 Hp)].
     - intros Hx. cbn [step] in Hx. destruct B0 as [Hc0 _]. rewrite Hc0 in Hx.
-      destruct (construct po lab (w_ccs w0) outs s1 s2 (map node_view (w_nodes w0))) as [[m fx] pan]. cbn [fst] in Hx.
+      destruct (construct po lab (with_default dp (w_ccs w0)) outs s1 s2 (map node_view (w_nodes w0))) as [[m fx] pan]. cbn [fst] in Hx.
       destruct (apply_effects_names fx (mkWorld (w_nodes w0) (w_ccs w0) (w_rv w0) [] [] [] [] empty_q empty_q (if pan then None else Some m) false [] [] (s1, s2) (w_delseen w0))) as [_ B].
       rewrite B in Hx. destruct Hx.
   Qed.
